@@ -178,6 +178,25 @@ func gen(r *vh.Rand, tier string, n int, emit func(vh.Case)) {
 					"/root/in/../f", "/root/in", "/root/nothing", "/outside/secret", "/root/link/../f", "/root//in/./f",
 					"/root/in/..\\f", "/root/..\\outside\\secret", "/root/in\\f", "/root/in/..\\f", "/root/..\\outside\\secret"})
 				c.Ops = append(c.Ops, "fsput "+h(rr)+" "+h(ff))
+			case 8:
+				// Put under one setting of the flags, Get under another (a URL reference must never be opened as a file)
+				full := randFull(r, root)
+				if r.Bool() {
+					full = vh.Pick(r, []string{"http://host/../../../outside/secret.txt", "https://h/../../x", "http://../../..//etc/passwd",
+						"http://h/a/../../../../root-sibling/f", "https://../secret", "http://host/p", "http://h/..\\..\\x"})
+				}
+				af, au := "1", "1"
+				if r.Chance(1, 8) {
+					au = "0"
+				}
+				af2, au2 := "1", "0" // never "1" for a URL: Get would issue an HTTP request
+				if !filestore.IsURL(full) && r.Bool() {
+					au2 = "1"
+				}
+				if r.Chance(1, 6) {
+					af2 = "0"
+				}
+				c.Ops = append(c.Ops, "putget "+af+" "+au+" "+af2+" "+au2+" "+h(root)+" "+h(full))
 			case 9:
 				var fs []string
 				for k, kk := 0, r.Range(0, 4); k < kk; k++ {
@@ -329,6 +348,72 @@ func doPut(o *vh.Out, af, au bool, root, full string) {
 		o.Kind("accept-unclean")
 	}
 	o.Emit("ok %s %s", h(stored), h(abs))
+}
+
+// doPutGet stores a reference under (af, au) and reads it back under (af2, au2).
+func doPutGet(o *vh.Out, af, au, af2, au2 bool, root, full string) {
+	fm := filestore.NewFileManager(dssync.MutexWrap(ds.NewMapDatastore()), root)
+	fm.AllowFiles, fm.AllowUrls = af, au
+	var opened []string
+	filestore.VerifSetReaderFactory(fm, func(p string) (filestore.FileReader, error) {
+		opened = append(opened, p)
+		return &recReader{data: blockData}, nil
+	})
+	ctx := context.Background()
+	nd := merkledag.NewRawNode(blockData)
+	err := fm.Put(ctx, &posinfo.FilestoreNode{Node: nd, PosInfo: &posinfo.PosInfo{FullPath: full, Offset: 0}})
+	switch {
+	case errors.Is(err, filestore.ErrUrlstoreNotEnabled):
+		o.Emit("urldisabled")
+		return
+	case errors.Is(err, filestore.ErrFilestoreNotEnabled):
+		o.Emit("filedisabled")
+		return
+	case err != nil:
+		o.Emit("reject")
+		return
+	}
+	fs := filestore.NewFilestore(nil, fm, nil)
+	stored := filestore.List(ctx, fs, nd.Cid()).FilePath
+	isURL := filestore.IsURL(stored)
+	fm.AllowFiles, fm.AllowUrls = af2, au2
+	o.Kind("putget")
+	if isURL && au2 {
+		o.Emit("ok %s http", h(stored)) // not exercised: it would go to the network
+		return
+	}
+	blk, gerr := fm.Get(ctx, nd.Cid())
+	ver := filestore.Verify(ctx, fs, nd.Cid())
+	// ---- monitor
+	if isURL {
+		o.Kind("putget-url-flags-off")
+		o.Nontrivial()
+		if len(opened) > 0 {
+			o.Fail("url-opened-as-file", "root=%q stored=%q opened=%q (Get err=%v, Verify=%v)", root, stored, opened, gerr, ver.Status)
+		}
+		if gerr == nil || ver.Status == filestore.StatusOk {
+			o.Fail("url-served-with-urlstore-off", "root=%q stored=%q Get err=%v Verify=%v", root, stored, gerr, ver.Status)
+		}
+	} else {
+		for _, p := range opened {
+			if !lexicallyInside(root, p) {
+				o.Fail("outside-root", "putget root=%q full=%q stored=%q opened=%q", root, full, stored, p)
+			}
+			if p != filepath.Clean(full) {
+				o.Fail("resolves-elsewhere", "putget root=%q full=%q stored=%q opened=%q", root, full, stored, p)
+			}
+		}
+	}
+	switch {
+	case errors.Is(gerr, filestore.ErrUrlstoreNotEnabled):
+		o.Emit("ok %s urldisabled", h(stored))
+	case errors.Is(gerr, filestore.ErrFilestoreNotEnabled):
+		o.Emit("ok %s disabled", h(stored))
+	case gerr != nil || blk == nil || len(opened) == 0:
+		o.Emit("ok %s get-failed", h(stored))
+	default:
+		o.Emit("ok %s %s", h(stored), h(opened[0]))
+	}
 }
 
 func doPutMany(o *vh.Out, af, au bool, root, list string) {
@@ -532,6 +617,8 @@ func exec(c vh.Case, o *vh.Out) {
 				o.Kind("rel")
 				o.Emit("%s", h(r))
 			}
+		case f[0] == "putget" && len(f) == 7:
+			doPutGet(o, f[1] == "1", f[2] == "1", f[3] == "1", f[4] == "1", string(vh.UnHex(f[5])), string(vh.UnHex(f[6])))
 		case f[0] == "putmany" && len(f) == 5:
 			doPutMany(o, f[1] == "1", f[2] == "1", string(vh.UnHex(f[3])), f[4])
 		case f[0] == "fsput" && len(f) == 3:
